@@ -1,7 +1,7 @@
 (* Props/C09.v — writing a definition to XTCE XML and loading it back preserves its meaning.
-   The round trip is a theorem at every level of the document, up to the whole document, for parameter types other than
-   the two time types (whose Encoding scale/offset form is tied by the correspondence of this property only: those
-   statements keep the suffix _partial visible in DESIGN.md).  [*_wf] are the writer-normal-form conditions every dumped
+   The round trip is a theorem at every level of the document, up to the whole document, for all eight parameter type kinds.
+   A time type stores scale and offset as attributes of <Encoding>, so the default calibrator it can carry back is the one those
+   attributes stand for ([time_default_ok]: none, a spline (written inside the data encoding), scale*x, or offset + scale*x).  [*_wf] are the writer-normal-form conditions every dumped
    definition satisfies (optional strings non-empty, spline order 0/1, criteria lists in one of the three XTCE shapes, ...). *)
 From Coq Require Import ZArith List Bool String.
 From SPP Require Import Base.Sx Model.Xml Proofs.RoundTripP.
@@ -23,6 +23,11 @@ Print Assumptions C09_roundtrip_parameter.
 Theorem C09_roundtrip_parameter_type : forall U t, ptype_wf t -> read_ptype U (write_ptype U t) = Ok t.
 Proof. exact rt_ptype. Qed.
 Print Assumptions C09_roundtrip_parameter_type.
+
+Theorem C09_roundtrip_time_type : forall U name ab ep ofr unit enc, encoding_wf enc -> time_default_ok enc ->
+  let t := {| xt_name := name; xt_kind := XKTime ab ep ofr; xt_unit := unit; xt_enc := enc |} in read_ptype U (write_ptype U t) = Ok t.
+Proof. exact rt_time. Qed.
+Print Assumptions C09_roundtrip_time_type.
 
 (* the data encoding is found among its UnitSet / EnumerationList siblings and read back *)
 Theorem C09_roundtrip_encoding : forall U m a pre post e, encoding_wf e -> Forall (tags_in INNER) pre -> Forall (tags_in INNER) post ->
